@@ -449,7 +449,7 @@ func joinKeys(m map[string]bool) string {
 
 // c05SerialEventOnly re-checks the monitor-side event serial rule under another rule name.
 func c05SerialEventOnly(c *Ctx, k *core, rule string) {
-	f := k.monitor
+	f := k.frame().fn
 	for _, i := range allInstrs(f) {
 		al, ok := i.(*ssa.Alloc)
 		if !ok || litTypeName(al) != ".newConfigEvent" {
